@@ -34,6 +34,7 @@ for _p in ("C01", "C07"):
     TECH[_p] = _B + "; plus a symbolic one-step refinement check of the slot-level steps with Apalache (spec/MapRef.tla) and a TLAPS proof, for unbounded capacity, that the slot array with swap-remove refines the ideal key-value map and that retain keeps exactly the accepted pairs (spec/MapProofKV.tla, spec/MapProofRetain.tla)"
 for _p in ("C03", "C05"):
     TECH[_p] = _B + "; plus the representation invariant shown inductive with Apalache (capacities up to 32) and proved with TLAPS for unbounded capacity together with the refinement of the ideal key set by every slot-level step (spec/MapInd.tla, spec/MapProof.tla)"
+TECH["C12"] = _B + "; plus a TLAPS proof of stored-key identity for unbounded capacity (spec/MapProofId.tla)"
 for _p in ("C13", "C18"):
     TECH[_p] = _B + "; plus a symbolic check of the disjoint-borrow stack algorithm with Apalache (spec/MapDisj.tla)"
 for _p in ("C06", "C08", "C14", "C16"):
@@ -70,7 +71,7 @@ def main():
         "engines": [
             {"name": "pairgraph", "path": "spec/PairSpec.tla + harness/src/pair.rs", "serves_properties": ["C06", "C08", "C14"],
              "kind_free_text": "TLC state graph of two containers with the read-only binary operations, replayed into the real crate"},
-            {"name": "symbolic", "path": "spec/MapRef.tla, spec/MapInd.tla, spec/MapDisj.tla (Apalache); spec/MapProof.tla, spec/MapProofKV.tla, spec/MapProofRetain.tla (TLAPS)", "serves_properties": ["C01", "C03", "C05", "C07", "C13", "C18"],
+            {"name": "symbolic", "path": "spec/MapRef.tla, spec/MapInd.tla, spec/MapDisj.tla (Apalache); spec/MapProof.tla, spec/MapProofKV.tla, spec/MapProofRetain.tla, spec/MapProofId.tla (TLAPS)", "serves_properties": ["C01", "C03", "C05", "C07", "C12", "C13", "C18"],
              "kind_free_text": "design-level strengthenings beyond TLC's capacities: one-step refinement of the dictionary from any well-formed state (capacities <= 24), inductive representation invariant (<= 32) and, by TLAPS for unbounded capacity, the invariant together with the refinement of the ideal key set / key-value map by every slot-level step, the disjoint-borrow stack algorithm for arbitrary states; run inside the named checks"},
             {"name": "micro", "path": "spec/MapMicro.tla + harness/src/micro.rs + harness/src/sweep.rs", "serves_properties": ["C04", "C08", "C14", "C17"],
              "kind_free_text": "callback-granular TLA+ model of slot memory (panic at every callback / every outcome of every key comparison), every behaviour replayed into the real crate"},
